@@ -735,7 +735,8 @@ void ICMPv6::try_parse_extensions(InputMemoryStream& stream) {
 }
 
 bool ICMPv6::are_extensions_allowed() const {
-    return type() == TIME_EXCEEDED;
+    // RFC 4884, sections 4.4 and 4.5
+    return type() == DEST_UNREACHABLE || type() == TIME_EXCEEDED;
 }
 
 // ********************************************************************
